@@ -23,9 +23,13 @@ CLAIMED = {
         "C03_concrete_link (the engine on variable-free types is the concrete model of C02). WITH deferred constraints (Props/C03Constr.lean, one simultaneous induction over all twelve functions of the unifier with the invariant OkStoreC): "
         "C03c_unify_sound / C03c_unify_flags_sound (counterexamples show the subtype conclusion needs skip_basic = skip_wildcard = False), C03c_check_constraints_sound, C03c_fulfill_sound, C03c_fix_sound, "
         "C03c_instantiate_sound (schemas with constraints and wildcards), C03c_apply_sound, C03c_apply_chain, C03c_apply_chain_instantiation, C03c_base_bound_never_compound. "
-        "Partial: 'every constraint whose variables were all resolved holds' is proved for fulfilled subtype constraints on wildcard-free stores (C03c_fulfilled_sub_holds_partial; "
-        "C03c_match3_wildcards_unsound shows why) and for elimination constraints only in local form (the fulfil call that narrows to one alternative unifies with it); the rest of that clause is "
-        "decided by correspondence (re-check order fixed by the hook) and the oracle (corner instantiations of the implementation's own final signature); unify(subtype=False) has proved counterexamples "
+        "The last clause ('every constraint whose variables were all resolved holds') as an ATTACHMENT invariant kept by the whole engine (Props/C03Resolved.lean, C03r_*, 20; invariant Ready = OkStoreC + Chains + NoWild + Inv): "
+        "an unfulfilled constraint sits in the constraint set of every variable reachable from its terms, an unfulfilled subtype constraint never has both sides resolved, hence C03r_resolved_sub_holds_partial - after instantiate + applyAll "
+        "EVERY subtype record, marked fulfilled or not, whose sides resolve satisfies the relation; elimination: unfulfilled records keep >= 2 alternatives and the resolved reference lies below each, fulfilled single-alternative records hold, "
+        "schemas with closed alternatives (x << {A, B}) hold in full (C03r_resolved_elim_closed_holds_partial), remaining alternatives always derive from the schema's (across minimize's stale write-back). Partial: wildcard-free schemas (nwild = 0; "
+        "C03c_match3_wildcards_unsound shows why marking needs it), resolution depth < 64 (C03r_deep_constraint_unchecked: beyond its match fuel 4*vars+64 the MODEL accepts F^70(x) <= F^70(A) on Unit where the Python code - replayed - raises "
+        "ConstraintViolation: model and code are claimed, and compared by a depth family, only below that depth), and fulfilled elimination records left with >= 2 non-closed alternatives by a re-entrant fulfill (neither proved nor refuted: "
+        "0 violations in 3.9 million such records found by search); that rest is decided by correspondence (re-check order fixed by the hook) and the oracle (corner instantiations of the implementation's own final signature); unify(subtype=False) has proved counterexamples "
         "(C03_unify_plain_unsound_*), it is not reachable from Type.apply.",
         technique="Lean 4 proof (simultaneous induction on fuel over the mutual unifier, store invariants, valuation semantics) + model/implementation correspondence check",
         ref="6/C03"),
